@@ -25,7 +25,7 @@ RULE = (
     "all are non-trivial (each contains a worker death); distinct = distinct (configuration, fault, choice sequence)."
 )
 ASSUMPTIONS = c11.ASSUMPTIONS + [
-    "death after the sentinel has been delivered is outside the alphabet (the batch is complete)",
+    "death after the sentinel has been delivered is outside the alphabet of the schedule model (the batch is complete); the real-process runs include it with the weaker demand that the command may only succeed when its output is complete",
     "a killed child loses whatever its feeder thread had not flushed, so 'killed after put() returned' equals a smaller k",
 ]
 LEVEL_TEXT = (
@@ -176,6 +176,58 @@ def real_fault_runs(res, scratch, spec, tier, only=None):
         if p.returncode == 0:
             n = len([l for l in open(out).read().split("\n") if l]) if os.path.exists(out) else 0
             res.fail(f"C13/real-run:zero-exit:{kind}", f"{what} the command exited with status 0 ({n} of {nrec} records written)", case)
+    # the same kinds of death injected through the aligner (independent of how work is handed to the workers and how results
+    # come back): before read j is aligned, and at the very end of a batch (after its results have left the worker)
+    runs2 = []
+    for cores in (1, 2):
+        for batch in (1, 2):
+            for j in sorted({0, batch - 1, nrec - 1}):
+                for kind in ("kill", "term", "exit3", "exc"):
+                    runs2.append((cores, batch, j, kind, "before"))
+            for j in sorted({batch - 1, nrec - 1}):
+                for kind in ("kill", "exit3"):
+                    runs2.append((cores, batch, j, kind, "end"))
+    if tier == "quick":
+        runs2 = [r for r in runs2 if r[0] == 2 or r[3] == "kill"]
+    for i, (cores, batch, j, kind, when) in enumerate(runs2):
+        if i % spec["of"] != spec["shard"]:
+            continue
+        if only is not None and [cores, batch, j, kind, when] != only:
+            continue
+        out = os.path.join(d, "out.gaf")
+        what = f"[real processes: --cores {cores}, {batch} record(s) per worker, the worker aligning read {j} dies by {kind} " + ("before that alignment]" if when == "before" else "at the end of its batch, after its results have left it]")
+        case = {"real_fault": [cores, batch, j, kind, when]}
+        res.evaluations += 1
+        res.nt(fw.h64(case))
+        res.count("real_process_fault_runs")
+        for limit in (REAL_TIMEOUT, 5 * REAL_TIMEOUT):
+            if os.path.exists(out):
+                os.remove(out)
+            with open(os.path.join(d, "driver.err"), "wb") as errf:
+                p = subprocess.Popen([sys.executable, "-m", "mc.realfault_driver2", d, str(cores), str(batch), str(j), kind, when],
+                                     cwd=fw.VERIF, env=env, stdout=subprocess.DEVNULL, stderr=errf, stdin=subprocess.DEVNULL, start_new_session=True)
+                try:
+                    p.wait(timeout=limit)
+                    hung = False
+                except subprocess.TimeoutExpired:
+                    hung = True
+                try:
+                    os.killpg(p.pid, signal.SIGKILL)
+                except ProcessLookupError:
+                    pass
+                p.wait()
+            if not hung:
+                break
+        if hung:
+            res.fail(f"C13/real-run:hang:{kind}", f"{what} the command is still running after {5 * REAL_TIMEOUT} s", case)
+            nhang += 1
+            if nhang >= 3:
+                break
+            continue
+        if p.returncode == 0:
+            n = len([l for l in open(out).read().split("\n") if l]) if os.path.exists(out) else 0
+            if when == "before" or n != nrec:
+                res.fail(f"C13/real-run:zero-exit:{kind}", f"{what} the command exited with status 0 ({n} of {nrec} records written)", case)
 
 
 def judge(x, nrec, fault):
